@@ -354,7 +354,7 @@ func (c *Collection) WriteCas(key string, exp Exp, cas CAS, val any, opt sgbucke
 		} else {
 			// Regular write:
 			sql = `UPDATE documents SET value=?1, cas=?2, exp=?6, isJSON=?7, revSeqNo=?8,
-						xattrs=iif(tombstone != 0, null, xattrs)
+						xattrs=iif(tombstone != 0, null, xattrs), tombstone=0
 				   WHERE collection=?3 AND key=?4 AND cas=?5`
 		}
 		result, err := txn.Exec(sql, raw, newCas, c.id, key, cas, exp, isJSON, revSeqNo)
